@@ -116,15 +116,19 @@ def s_plain(model, x, e, sg, n_, A_, al):
     raise ValueError(model)
 
 
-def fd_derivs(model, r_, eps_, sig_, n_=None, A_=None, alpha_=None, rel_step=1e-5):
+def fd_derivs(model, r_, eps_, sig_, n_=None, A_=None, alpha_=None, rel_step=1e-5, beyond_contact=False):
     """Richardson-extrapolated central differences (error O(h^4)) of the hand-coded s at 40 digits.
-    h = rel_step * distance to the nearest singular point of s (r = 0; for Hertz also r = sigma)."""
+    h = rel_step * distance to the nearest singular point of s (r = 0; for Hertz also r = sigma).
+    Hertz with r > sigma: None, unless `beyond_contact` is set (round 3; the caller guarantees an integer alpha, for
+    which (1 - r/sigma)^alpha is a polynomial and real on both sides of contact): then h = rel_step * min(r, r - sigma)."""
     with mp.workdps(DPS):
         x, e, sg = _mpf(r_), _mpf(eps_), _mpf(sig_)
         p = (e, sg, _mpf(n_), _mpf(A_), _mpf(alpha_))
         rho = x
         if model == "harmonic_hertz":
             rho = min(x, sg - x)
+            if rho < 0 and beyond_contact:
+                rho = min(x, x - sg)
         if rho <= 0:
             return None
         h = rho * mp.mpf(rel_step)
